@@ -1,6 +1,11 @@
 (* Property C16 - Rope behaves exactly like the string it represents.
-   Only statements; each closed by a lemma proved elsewhere. *)
-From RS Require Import Base.Prelude Base.Text Rope.RopeModel Proofs.RopeBasic.
+   Only statements (about the piece-table model Rope/RopeModel.v against plain
+   string functions); each closed by a lemma proved in Proofs/Rope*.v.
+   rope_wf r: non-empty piece list, no empty piece, offsets are prefix sums.
+   rope_valid r: every piece is valid UTF-8 (pieces are Rust &str). *)
+From RS Require Import Base.Prelude Base.Text Rope.RopeModel Rope.RopeProg
+  Proofs.RopeBasic Proofs.RopeWf Proofs.RopeUtf8 Proofs.RopeOps Proofs.RopeSlice Proofs.RopeLines
+  Proofs.RopeProgram.
 
 Theorem C16_constructors_flat :
   (forall ts, flat (rope_from_iter ts) = concat ts) /\
@@ -8,3 +13,77 @@ Theorem C16_constructors_flat :
   (forall r o, flat (rope_append r o) = flat r ++ flat o).
 Proof. exact (conj flat_from_iter (conj flat_add flat_append)). Qed.
 Print Assumptions C16_constructors_flat.
+
+(* every constructor establishes / preserves the representation invariant *)
+Theorem C16_constructors_wf :
+  rope_wf rope_new = true /\ (forall t, rope_wf (rope_from t) = true)
+  /\ (forall ts, rope_wf (rope_from_iter ts) = true)
+  /\ (forall r v, rope_wf r = true -> rope_wf (rope_add r v) = true)
+  /\ (forall r o, rope_wf r = true -> rope_wf o = true -> rope_wf (rope_append r o) = true).
+Proof.
+  exact (conj rope_wf_new (conj rope_wf_from (conj rope_wf_from_iter (conj rope_wf_add rope_wf_append)))).
+Qed.
+Print Assumptions C16_constructors_wf.
+
+(* every program over new/from/from_iter/add/append/byte_slice/lines denotes exactly the string
+   the same program denotes on plain strings; a slice is rejected exactly when the string
+   operation is (reversed, out of bounds, not on char boundaries) *)
+Theorem C16_programs : forall p, prog_valid p = true ->
+  match run_string p with
+  | Some s => exists r, run p = Some r /\ flat r = s /\ rope_wf r = true /\ rope_valid r = true
+  | None => run p = None
+  end.
+Proof. exact run_correct. Qed.
+Print Assumptions C16_programs.
+
+Theorem C16_len_is_empty : forall r, rope_wf r = true ->
+  rope_len r = len (flat r) /\ rope_is_empty r = is_nil (flat r).
+Proof. intros r H. exact (conj (rope_len_flat r H) (rope_is_empty_flat r)). Qed.
+Print Assumptions C16_len_is_empty.
+
+Theorem C16_get_byte : forall r i, rope_wf r = true -> rope_get_byte r i = nth_opt (flat r) i.
+Proof. exact rope_get_byte_flat. Qed.
+Print Assumptions C16_get_byte.
+
+(* get_byte_slice: Some exactly for in-range char-boundary ranges, the result denotes the string
+   slice and is again well-formed; the unchecked chunk access is never out of range *)
+Theorem C16_slice : forall r a b, rope_wf r = true -> rope_valid r = true ->
+  match str_get (flat r) a b with
+  | Some t => exists r', rope_slice r a b = SOk r' /\ flat r' = t /\ rope_wf r' = true /\ rope_valid r' = true
+  | None => exists w, rope_slice r a b = SErr w
+  end.
+Proof. exact rope_slice_flat. Qed.
+Print Assumptions C16_slice.
+
+Theorem C16_char_indices : forall r, rope_wf r = true -> rope_valid r = true ->
+  rope_char_indices r = char_indices (flat r).
+Proof. exact rope_char_indices_flat. Qed.
+Print Assumptions C16_char_indices.
+
+Theorem C16_lines : forall r tr, rope_wf r = true ->
+  map flat (rope_lines_impl r tr) = str_lines (flat r) tr
+  /\ Forall (fun l => rope_wf l = true) (rope_lines_impl r tr).
+Proof. exact rope_lines_flat. Qed.
+Print Assumptions C16_lines.
+
+(* binary observers, for any two piece divisions *)
+Theorem C16_starts_with : forall r v, rope_wf r = true -> rope_wf v = true ->
+  rope_starts_with r v = is_prefix (flat v) (flat r).
+Proof. exact rope_starts_with_flat. Qed.
+Print Assumptions C16_starts_with.
+
+Theorem C16_ends_with : forall r c, rope_wf r = true -> rope_valid r = true ->
+  rope_ends_with r (utf8_encode_char c) = ends_with_bytes (flat r) (utf8_encode_char c).
+Proof. exact rope_ends_with_flat. Qed.
+Print Assumptions C16_ends_with.
+
+(* equality never panics and is string equality *)
+Theorem C16_eq : forall a b, rope_wf a = true -> rope_wf b = true ->
+  rope_eq a b = Some (text_eqb (flat a) (flat b)).
+Proof. exact rope_eq_flat. Qed.
+Print Assumptions C16_eq.
+
+Theorem C16_eq_str_hash : forall r o, rope_wf r = true ->
+  rope_eq_str r o = text_eqb (flat r) o /\ concat (rope_hash_pieces r) = flat r.
+Proof. intros r o H. exact (conj (rope_eq_str_flat r o H) (rope_hash_flat r)). Qed.
+Print Assumptions C16_eq_str_hash.
